@@ -979,7 +979,7 @@ theorem good_dispatch (tbl : List IfaceRow) {b : Bus} (h : Good b) (c : ConnId) 
             · exact good_route h c ha hc _
 
 theorem reloadPolicy_conns (b : Bus) (p : Policy) :
-    (reloadPolicy b p).conns = b.conns.map fun x => if x.name.isSome then { x with policy := p.clientRules x.uid x.gids false } else x := rfl
+    (reloadPolicy b p).conns = b.conns.map fun x => if x.name.isSome then { x with policy := p.clientPolicy b.limits.maxFdsDefault x.uid x.gids false } else x := rfl
 
 theorem good_step (tbl : List IfaceRow) {b : Bus} (h : Good b) (ev : Ev) : Good (step tbl b ev).bus := by
   have hn := namesInv_step tbl b ev h.names
@@ -1011,10 +1011,10 @@ theorem good_step (tbl : List IfaceRow) {b : Bus} (h : Good b) (ev : Ev) : Good 
   | stall c on => exact good_pending_sub h rfl rfl (fun e he => he)
   | reload p =>
     show RegInv (reloadPolicy b p) ∧ MonQuiet (reloadPolicy b p) ∧ PendLive (reloadPolicy b p)
-    have hg : ∀ x : Conn, ((if x.name.isSome then { x with policy := p.clientRules x.uid x.gids false } else x : Conn).id = x.id ∧
-        (if x.name.isSome then { x with policy := p.clientRules x.uid x.gids false } else x : Conn).monitor = x.monitor ∧
-        (if x.name.isSome then { x with policy := p.clientRules x.uid x.gids false } else x : Conn).owned = x.owned ∧
-        (if x.name.isSome then { x with policy := p.clientRules x.uid x.gids false } else x : Conn).rules = x.rules) := by
+    have hg : ∀ x : Conn, ((if x.name.isSome then { x with policy := p.clientPolicy b.limits.maxFdsDefault x.uid x.gids false } else x : Conn).id = x.id ∧
+        (if x.name.isSome then { x with policy := p.clientPolicy b.limits.maxFdsDefault x.uid x.gids false } else x : Conn).monitor = x.monitor ∧
+        (if x.name.isSome then { x with policy := p.clientPolicy b.limits.maxFdsDefault x.uid x.gids false } else x : Conn).owned = x.owned ∧
+        (if x.name.isSome then { x with policy := p.clientPolicy b.limits.maxFdsDefault x.uid x.gids false } else x : Conn).rules = x.rules) := by
       intro x; split <;> exact ⟨rfl, rfl, rfl, rfl⟩
     refine ⟨regInv_map _ (reloadPolicy_conns b p) rfl (fun x => ⟨(hg x).1, (hg x).2.1, (hg x).2.2.1⟩)
       (fun x _ _ hr => by rw [(hg x).2.2.2]; exact hr) h.reg, ?_,
